@@ -1902,7 +1902,10 @@ class Rule(metaclass=LogicalType):
             return None
         if issubclass(cls.__origin__, MAP_TYPES):
             return cls._parse_map_args
-        elif issubclass(cls.__origin__, SEQ_TYPES):
+        elif issubclass(cls.__origin__, SEQ_TYPES) or (
+            cls.__abstract__ and issubclass(cls.__origin__, typing.Iterable)
+        ):
+            # (the abstract containers too: Sequence[int], AbstractSet[int], Collection[int], Iterable[int])
             if issubclass(cls.__origin__, tuple) and not cls.__ellipsis_args__:
                 return cls._parse_tuple_args
             return cls._parse_seq_args
